@@ -35,7 +35,8 @@ CHECK = {
         "volumes the oracle scan does not find (thinner than the scan lattice and not delimited by "
         "axis-aligned/centred surfaces of their own universe) get no root of their own",
     ],
-    "bounds": {"quick": {"ray_lattice": 4, "init_lattice": 15, "scan_lattice": 17, "ops_depth": 6,
+    "bounds": {"zoo_added": "g6 (volumes of the form A & (B | C): ball caps, framed bars) and rectangular arrays with unequal cell counts 5x2x1, 2x5x1, 1x2x6 (cells 1 x 0.75 x 1.25 with a ball inside)",
+               "quick": {"ray_lattice": 4, "init_lattice": 15, "scan_lattice": 17, "ops_depth": 6,
                          "ops_setdir": 2, "ops_node_cap": 400000, "ops_chain_roots_per_geometry": 10},
                "thorough": {"ray_lattice": 7, "init_lattice": 25, "scan_lattice": 25, "ops_depth": 7,
                             "ops_setdir": 2, "ops_node_cap": 3000000,
